@@ -24,10 +24,11 @@ func init() {
 		Rule: "evaluations = executed cases over five monitors: (a) creds: one secret (or secret pair) per case, credentials derived twice and compared field by field, plus real handshakes " +
 			"(net.Pipe and loopback UDP) for equal / different secret pairs; (b) listener (-race): one case per session actor group of a batch of 2..32 concurrent Dial/AcceptWithContext " +
 			"sessions on one real Listener over loopback UDP (roles: pair, early dialer, duplicate accept, cancelled/expired accept at five logical points, unregistered dialer), plus one case per " +
-			"batch for the registration maps; (c) stream: one case = (stack, max message size, message-size/heartbeat sequence, stream ending, read-size sequence, reader mode), 'messages then " +
+			"batch for the registration maps; (b2) intruder (-race): one case per forged certificate list (12 kinds x replayed/fresh ClientHello random) presented by a peer without the secret - built only from what a recording relay saw of a genuine session - to a pending AcceptWithContext, to ServerWithContext, and as forged acceptor to ClientWithContext/DialWithContext, each listener attempt followed by a genuine control dial on the same pending Accept; " +
+			"(c) stream: one case = (stack, max message size, message-size/heartbeat sequence, stream ending, read-size sequence, reader mode), 'messages then " +
 			"error' cases on the server stack repeated 20x with the reader started only after the receive loop has closed; exhaustive for max size 3 and sequences up to length 2 (quick) / 4 " +
 			"(thorough), seeded otherwise; (d) flow: one case per scripted slow-network scenario, the bound is asserted inside every stream.Write; (e) heartbeat: one case per loss scenario. " +
-			"distinct_nontrivial: (b) established sessions whose tag exchange ran in both directions, and batches with at least one cancellation; (c) case descriptors with >= 2 data messages " +
+			"distinct_nontrivial: (b2) attempts that reached the peer's certificate verification (listener attempts: and whose control succeeded); (b) established sessions whose tag exchange ran in both directions, and batches with at least one cancellation; (c) case descriptors with >= 2 data messages " +
 			"reaching the reader and a heartbeat, a terminal error or a read smaller than a message; (d) scenarios in which at least one write had to wait; (e) scenarios in which at least " +
 			"one heartbeat was consumed before the loss",
 		Assumptions: []string{
